@@ -110,6 +110,52 @@ def showModel (o : Outcome) : String :=
 def showImpl (i : ImplObs) : String :=
   s!"{showImplResult i.obs.result} q{i.queries} prog [{" ".intercalate (i.obs.prog.map showProg)}] ban {showNats i.obs.bans} cache [{" ".intercalate (i.obs.cache.map showEntry)}]"
 
+def parseResult (res : String) : Option ObsResult :=
+  match res.splitOn ":" with
+  | ["ret", rid, hmw] =>
+    let fl := hmw.toList
+    some (.ret (nat! rid) (fl.getD 0 '0' == '1') (fl.getD 1 '0' == '1') (fl.getD 2 '0' == '1'))
+  | ["err", kind] => some (.err kind)
+  | _ => none
+
+/-- `conc <enc> <cont> <verdict> [targets] [script]` -/
+def parseConc (ws : List String) : Option (List Call) :=
+  match ws with
+  | "conc" :: enc :: cont :: v :: rest =>
+    let (ts, rest) := bracket rest
+    let (toks, _) := bracket rest
+    match parseVerdict v, toks.mapM parseResp with
+    | some vd, some rs => some (ts.map fun t =>
+        { target := nat! t, known := true, base := enc == "1", resps := rs, cont := cont == "1", verdict := vd })
+    | _, _ => none
+  | _ => none
+
+structure ConcObs where
+  results : List ObsResult
+  progs   : List (List Progress)
+  bans    : List Nat
+  cache   : List Lru.Entry
+  cacheOther : List Nat
+
+def parseConcObs (s : String) : Option ConcObs :=
+  let (rs, rest) := bracket (words s)
+  match rest with
+  | _q :: "progs" :: rest =>
+    let (ps, rest) := bracket rest
+    match rest with
+    | "ban" :: rest =>
+      let (bans, rest) := bracket rest
+      match rest with
+      | "cache" :: rest =>
+        let (ents, _) := bracket rest
+        (rs.mapM parseResult).map fun results =>
+          { results := results,
+            progs := ps.map (fun p => if p == "-" || p == "." then [] else (p.splitOn ",").map parseProg),
+            bans := bans.map nat!, cache := ents.map parseEntry, cacheOther := ents.filterMap otherHdrKey }
+      | _ => none
+    | _ => none
+  | _ => none
+
 def capOf (hdr : List String) : Nat :=
   match hdr with
   | _ :: "cap" :: c :: _ => nat! c
@@ -130,6 +176,36 @@ def runCase : CaseFn := fun c => Id.run do
       let real := bl.map nat!
       if real != bansBefore then
         out := out.push s!"DIFF C06 case {c.num} line {ln}: ban store on disk {showNats real} ≠ bans recorded during the calls {showNats bansBefore}"
+      continue
+    if ws.head? == some "conc" then
+      if (obs.splitOn "HANG").length > 1 || (obs.splitOn "PANIC").length > 1 then
+        out := out.push s!"ORACLE-FAIL C06 case {c.num} line {ln}: [shape=no-answer ] a concurrent GetBlock did not return: {obs}"
+        diverged := true
+        continue
+      match parseConc ws, parseConcObs obs with
+      | some calls, some co =>
+        if calls.length != co.results.length then
+          out := out.push s!"DIFF C06 case {c.num} line {ln}: {calls.length} callers, {co.results.length} results"
+        let callers : List Caller := (calls.zip (co.results.zip co.progs)).map fun (cl, r, p) => { call := cl, result := r, prog := p }
+        for tag in oracleConc callers bansBefore cacheBefore co.bans co.cache co.cacheOther do
+          out := out.push s!"ORACLE-FAIL C06 case {c.num} line {ln}: [shape={tag} ] {op} => {obs}"
+        bansBefore := co.bans
+        cacheBefore := co.cache
+        if !diverged then
+          -- every caller finds the cache empty under its key and runs its own download
+          let outs := calls.map (getBlock st)
+          let mres := outs.map (fun o => showModelResult o.result)
+          let ires := co.results.map showImplResult
+          let mbans := dedupSorted (outs.foldl (fun acc o => acc ++ o.st.bans) st.bans)
+          if mres != ires || mbans != co.bans then
+            out := out.push s!"DIFF C06 case {c.num} line {ln}: impl=<{ires} ban {showNats co.bans}> model=<{mres} ban {showNats mbans}>"
+          -- the order in which the callers' cache writes land is not determined: stop comparing
+          st := calls.foldl (fun s cl => (getBlock s cl).st) st
+          st := { st with bans := mbans }
+          diverged := true
+      | _, _ =>
+        out := out.push s!"DIFF C06 case {c.num} line {ln}: unparsable line <{line}>"
+        diverged := true
       continue
     if obs.startsWith "HANG" || obs.startsWith "PANIC" then
       out := out.push s!"ORACLE-FAIL C06 case {c.num} line {ln}: [shape=no-answer ] GetBlock did not return: {obs}"
